@@ -42,22 +42,29 @@ Section ProgB1.
   (** retired_array::init *)
   Lemma rt_init_spec t l r (Q : option unit -> VB -> Prop) :
     In r (vb_own l) -> vb_blk l = None -> vb_dead l <> Some r -> vb_move l = None -> vb_cur l = None -> vb_full l = None -> vb_new l = None ->
-    Q (Some tt) l -> (forall l', Q None l') -> dsafeB c t (rt_init c r) l Q.
+    Q (Some tt) (set_arr l (Some r)) -> (forall l', Q None l') -> dsafeB c t (rt_init c r) l Q.
   Proof.
     intros Hr Hb Hd Hm Hc Hf Hn HQ HN. unfold rt_init.
     apply dsafeB_xloc. intros g a tr Hv. unfold viewB in Hv.
-    exists (match r_head (grec g r) with Some _ => a | None => setv a t (set_move (bvs a t) (Some (r, None))) end).
-    split; [destruct (r_head (grec g r)); [apply frame_refl|eapply frame_bvs; reflexivity]|]. split.
-    { intros J. cbn [fst]. destruct (r_head (grec g r)) eqn:Eh; [exact J|]. apply S_mark; auto; try (rewrite Hv; auto).
-      destruct (rw0_of_nohead c g a tr t r J) as (_ & X); auto; rewrite Hv; auto. }
+    exists (match r_head (grec g r) with Some _ => setv a t (set_arr (bvs a t) (Some r)) | None => setv a t (set_move (bvs a t) (Some (r, None))) end).
+    split; [destruct (r_head (grec g r)); eapply frame_bvs; reflexivity|]. split.
+    { intros J. cbn [fst]. destruct (r_head (grec g r)) eqn:Eh.
+      - apply S_setarr; auto. intros r' E'. inversion E'; subst r'. split; [rewrite Hv; exact Hr|].
+        apply (arr_of_head c g a tr t r J); [rewrite Hv; exact Hr|rewrite Hv; exact Hd|congruence].
+      - apply S_mark; auto; try (rewrite Hv; auto).
+        destruct (rw0_of_nohead c g a tr t r J) as (_ & X); auto; rewrite Hv; auto. }
     cbn [fst snd]. destruct (r_head (grec g r)) as [hd|].
-    { unfold viewB. rewrite Hv. exact HQ. }
+    { unfold viewB. cbn [bvs setv]. rewrite fn_same, Hv. exact HQ. }
     unfold viewB. cbn [bvs setv]. rewrite fn_same, Hv. clear g a tr Hv.
     apply dsafeB_xbind. apply rt_alloc_spec; auto. intros b. cbn beta iota.
-    apply dsafeB_loc_J. intros g a tr Hv. unfold viewB in Hv. exists (aux_init a t r b). split; [eapply frame_bvs; reflexivity|]. split.
-    - intros J. apply S_init; auto; rewrite Hv; auto.
-    - unfold viewB. cbn [bvs aux_init fst snd]. rewrite fn_same, Hv.
-      assert (E : set_move (set_blk (set_blk (set_move l (Some (r, None))) (Some (b, true))) None) None = l) by (destruct l; cbn in *; subst; reflexivity).
+    apply dsafeB_loc_J. intros g a tr Hv. unfold viewB in Hv.
+    exists (setv (aux_init a t r b) t (set_arr (bvs (aux_init a t r b) t) (Some r))). split.
+    { intros t' Ht. unfold viewB. cbn. now rewrite !fn_other by exact Ht. }
+    split.
+    - intros J. apply S_setarr; [|apply S_init; auto; rewrite Hv; auto].
+      intros r' E'. inversion E'; subst r'. cbn [bvs aux_init rch]. rewrite !fn_same. split; [rewrite Hv; exact Hr|discriminate].
+    - unfold viewB. cbn [bvs setv aux_init fst snd]. rewrite !fn_same, Hv.
+      assert (E : set_arr (set_move (set_blk (set_blk (set_move l (Some (r, None))) (Some (b, true))) None) None) (Some r) = set_arr l (Some r)) by (destruct l; cbn in *; subst; reflexivity).
       rewrite E. exact HQ.
   Qed.
 
@@ -78,12 +85,24 @@ Section ProgB1.
   (** smr::scan *)
   Lemma scan_spec t l r (Q : option unit -> VB -> Prop) :
     In r (vb_own l) -> vb_dead l <> Some r -> (forall ob, vb_move l <> Some (r, ob)) -> (vb_full l = None \/ vb_full l = Some r) ->
-    vb_freed l = [] -> vb_blk l = None ->
+    vb_freed l = [] -> vb_blk l = None -> vb_pend l = None -> vb_s0 l = None -> vb_mine l = Some r ->
     Q (Some tt) (set_full l None) -> (forall l', Q None l') -> dsafeB c t (Dhp.scan c r) l Q.
   Proof.
-    intros Hr Hd Hm Hf Hfr Hb HQ HN. unfold Dhp.scan.
-    apply dsafeB_xact_q; [apply qB_faa_sync|]. intros _. apply dsafeB_xemit_q; [repeat constructor; apply qevB_scanb|].
-    apply dsafeB_xact_q; [apply qB_ld_tlist|]. intros h. apply dsafeB_quiet_seq; [apply qB_scan_recs|apply HN|]. intros pl.
+    intros Hr Hd Hm Hf Hfr Hb Hpe Hs0 Hmi HQ HN. unfold Dhp.scan.
+    apply dsafeB_xact_q; [apply qB_faa_sync|]. intros _.
+    (* "_scanb r": the thread notes that this is its last event; the next access forgets it *)
+    apply dsafeB_xemit. intros g a tr Hv. unfold viewB in Hv.
+    exists (setv a t (set_s0 (set_mine (bvs a t) (Some r)) (Some r))). split; [eapply frame_bvs; reflexivity|]. split.
+    { intros _ _ J. apply S_scanb; auto; rewrite Hv; auto. }
+    unfold viewB. cbn [bvs setv]. rewrite fn_same, Hv. clear g a tr Hv.
+    apply dsafeB_xact. intros g a tr Hv. unfold viewB in Hv.
+    exists (setv a t (set_s0 (set_mine (bvs a t) (Some r)) None)). split; [eapply frame_bvs; reflexivity|]. split.
+    { intros _ _ J. cbn [fst snd a_ld_tlist]. apply (S_s0clr c g a tr t (EvAcc KLd obj_tlist true) (Some r)); auto.
+      intros r' E'. inversion E'; subst r'. rewrite Hv. reflexivity. }
+    unfold viewB. cbn [bvs setv fst snd a_ld_tlist]. rewrite fn_same, Hv.
+    assert (El : set_s0 (set_mine (set_s0 (set_mine l (Some r)) (Some r)) (Some r)) None = l) by (destruct l; cbn in *; subst; reflexivity).
+    rewrite El. generalize (tlist g) as h. clear g a tr Hv El. intros h.
+    apply dsafeB_quiet_seq; [apply qB_scan_recs|apply HN|]. intros pl.
     apply dsafeB_xloc. intros g a tr Hv. unfold viewB in Hv.
     exists (aux_st2 a t r (fst (snd (stage2 c r pl g))) (snd (snd (stage2 c r pl g)))). split; [eapply frame_bvs; reflexivity|]. split.
     { intros J. apply S_stage2; auto; rewrite Hv; auto. }
